@@ -21,11 +21,11 @@ Inductive tok :=
 Definition prec (o : bop) : Z :=
   match o with
   | OColon => 10 | OQ => 20 | OLOr => 30 | OLAnd => 40 | OOr => 50 | OXor => 60 | OAnd => 70
-  | OEq | ONeq | OGt | OGte | OLt | OLte => 80
-  | OShr | OShl => 90 | OAdd | OSub => 100 | OMul | ODiv => 110
+  | OEq | ONeq => 80 | OGt | OGte | OLt | OLte => 90
+  | OShr | OShl => 100 | OAdd | OSub => 110 | OMul | ODiv => 120
   end.
 Definition right_assoc (o : bop) : bool := match o with OColon | OQ => true | _ => false end.
-Definition prefix_prec : Z := 120.
+Definition prefix_prec : Z := 130.
 
 Definition wrap32 (v : Z) : Z :=
   let m := v mod 4294967296 in if m <? 2147483648 then m else m - 4294967296.
